@@ -31,8 +31,52 @@ func init() {
 	register(&engine{name: "c20", prop: "C20", run: runC20})
 }
 
+// c20Enum: the scenario is being enumerated systematically (two tasks, the
+// enumerable strategy at sync and I/O granularity).
+var c20Enum bool
+
+// c20Exhaustive runs one seeded small workload of a scenario under EVERY
+// schedule with at most one (quick) / two (thorough) preemptive switches at
+// sync and I/O points.
+func c20Exhaustive(x *xctx, name string, scenario func(*xctx) *violation) *violation {
+	c20Enum = true
+	defer func() { c20Enum = false }()
+	main := x.t
+	defer func() { x.t = main }()
+	x.t = simrt.NewTape(uint64(main.Choose(simrt.KCfg, 1<<30)))
+	if v := scenario(x); v != nil {
+		return v
+	}
+	base, kinds := x.t.Used(), x.t.UsedKinds()
+	bound, maxRuns := 1, 2000
+	if x.tier == "thorough" {
+		bound, maxRuns = 2, 60000
+	}
+	v, runs, complete := exploreBounded(x, base, kinds, bound, maxRuns, func() *violation { return scenario(x) })
+	x.stats["enumerated_schedules"] += int64(runs)
+	if complete {
+		x.probe(fmt.Sprintf("%s_schedule_space_exhausted_preemption_bound_%d", name, bound))
+	} else if v == nil {
+		x.probe(name + "_schedule_enumeration_capped")
+	}
+	if v != nil {
+		v.Detail = fmt.Sprintf("(systematic enumeration, schedule %d) %s", runs, v.Detail)
+		return v
+	}
+	if s, ok := x.sample.(map[string]interface{}); ok {
+		s["mode"] = fmt.Sprint(s["mode"]) + "-exhaustive"
+		s["schedules_enumerated"] = runs
+		s["preemption_bound"] = bound
+		s["complete_for_that_bound"] = complete
+	}
+	return nil
+}
+
 func c20Sched(t *simrt.Tape, steps int) simrt.Config {
 	K := simrt.KCfg
+	if c20Enum {
+		return simrt.Config{Strategy: simrt.StratEnum}
+	}
 	cfg := simrt.Config{Strategy: simrt.StratRandom, SwitchT: []int{128, 26, 230, 64}[t.Choose(K, 4)], PreemptMean: []int{30, 200, 1500, 0}[t.Choose(K, 4)]}
 	if t.Bool(K, 30) {
 		cfg = simrt.Config{Strategy: simrt.StratPCT, PCTDepth: 1 + t.Choose(K, 3), PCTSteps: steps, PreemptMean: []int{20, 100}[t.Choose(K, 2)]}
@@ -41,6 +85,16 @@ func c20Sched(t *simrt.Tape, steps int) simrt.Config {
 }
 
 func runC20(x *xctx) *violation {
+	if x.t.Bool(simrt.KCfg, 6) {
+		switch x.t.Choose(simrt.KCfg, 3) {
+		case 0:
+			return c20Exhaustive(x, "tempfiles", c20TempFiles)
+		case 1:
+			return c20Exhaustive(x, "options", c20Options)
+		default:
+			return c20Exhaustive(x, "tools", c20Tools)
+		}
+	}
 	switch m := x.t.Choose(simrt.KCfg, 10); {
 	case m < 3:
 		return c20SharedProfile(x)
@@ -162,6 +216,9 @@ func c20Options(x *xctx) *violation {
 	K := simrt.KGen
 	freshProcess(true)
 	nw, nr := 1+t.Choose(K, 2), 1+t.Choose(K, 2)
+	if c20Enum {
+		nw, nr = 1, 1
+	}
 	ops := make([][]regOp, nw+nr)
 	ctr := 0
 	for i := 0; i < nw; i++ {
@@ -312,6 +369,9 @@ func c20TempFiles(x *xctx) *violation {
 		}
 	}
 	ntasks := 2 + t.Choose(K, 4)
+	if c20Enum {
+		ntasks = 2
+	}
 	type made struct {
 		name, content string
 		err           error
@@ -556,6 +616,9 @@ func c20Tools(x *xctx) *violation {
 		tools += ",llvm-symbolizer:/sim/testdata/bin"
 	}
 	ntasks := 2 + t.Choose(K, 3)
+	if c20Enum {
+		ntasks = 2
+	}
 	addrs := make([][]uint64, ntasks)
 	for i := range addrs {
 		n := 1 + t.Choose(K, 3)
